@@ -149,6 +149,7 @@ type ProxyTopo struct {
 	SlowDial     map[string]chan struct{} // dialling these names blocks until the channel is closed
 	moreServers  map[string]*Pipe
 	gens         []*Pipe
+	HasCallback  bool
 }
 
 type ProxyOpts struct {
@@ -158,6 +159,7 @@ type ProxyOpts struct {
 	Intercept   goat.RpcIntercepter
 	NoServer    bool
 	NoGoatPeers bool // raw pipes only: clients are scripted (CCs stay nil)
+	NoCallback  bool // the proxy is built without a disconnect callback (nil)
 	Servers     int  // >1: further servers "srv1", "srv2", ... (own transport, Demux and Server object each); client i talks to server i % Servers
 }
 
@@ -184,12 +186,18 @@ func NewProxyTopo(impl SvcServer, o ProxyOpts) *ProxyTopo {
 		}
 		return nil, ErrClosed
 	}
-	t.Proxy = goat.NewProxy(t.Ctx, "proxy", dial, o.Intercept, func(id string, reason error) {
-		t.Disconnects = append(t.Disconnects, id)
-		if t.OnDisconnect != nil {
-			t.OnDisconnect(id)
+	var cb goat.ClientDisconnect
+	if !o.NoCallback && !ProxyNoCallback {
+		t.HasCallback = true
+		cb = func(id string, reason error) {
+			t.Disconnects = append(t.Disconnects, id)
+			if t.OnDisconnect != nil {
+				t.OnDisconnect(id)
+			}
 		}
-	})
+	}
+	ProxyNoCallback = false
+	t.Proxy = goat.NewProxy(t.Ctx, "proxy", dial, o.Intercept, cb)
 	if !o.NoServer {
 		t.Srv = goat.NewServer("srv")
 		t.Srv.RegisterService(&ServiceDesc, impl)
@@ -256,3 +264,6 @@ func (t *ProxyTopo) ReattachServer(capn int) *Pipe {
 	t.Proxy.AddClient("srv", np.A)
 	return np
 }
+
+// ProxyNoCallback makes the next NewProxyTopo build its proxy without a disconnect callback.
+var ProxyNoCallback bool
